@@ -439,3 +439,97 @@ func (s *Sched) aliveNames() []string {
 	sort.Strings(out)
 	return out
 }
+
+// Orderer lets pointer/interface map keys define a deterministic iteration
+// order for MapKeys (harness-owned fakes implement it).
+type Orderer interface{ VerifOrder() int }
+
+func cmpAny(a, b any) (int, bool) {
+	switch x := a.(type) {
+	case string:
+		if y, ok := b.(string); ok {
+			return strings.Compare(x, y), true
+		}
+	case int:
+		if y, ok := b.(int); ok {
+			return cmpInt(int64(x), int64(y)), true
+		}
+	case int32:
+		if y, ok := b.(int32); ok {
+			return cmpInt(int64(x), int64(y)), true
+		}
+	case int64:
+		if y, ok := b.(int64); ok {
+			return cmpInt(x, y), true
+		}
+	case uint32:
+		if y, ok := b.(uint32); ok {
+			return cmpInt(int64(x), int64(y)), true
+		}
+	case uint64:
+		if y, ok := b.(uint64); ok {
+			if x < y {
+				return -1, true
+			} else if x > y {
+				return 1, true
+			}
+			return 0, true
+		}
+	case uint:
+		if y, ok := b.(uint); ok {
+			return cmpInt(int64(x), int64(y)), true
+		}
+	}
+	if x, ok := a.(Orderer); ok {
+		if y, ok := b.(Orderer); ok {
+			return cmpInt(int64(x.VerifOrder()), int64(y.VerifOrder())), true
+		}
+	}
+	if x, ok := a.(fmt.Stringer); ok {
+		if y, ok := b.(fmt.Stringer); ok {
+			return strings.Compare(x.String(), y.String()), true
+		}
+	}
+	return 0, false
+}
+
+func cmpInt(a, b int64) int {
+	if a < b {
+		return -1
+	} else if a > b {
+		return 1
+	}
+	return 0
+}
+
+// MapKeys returns the keys of m in a deterministic order (ascending for
+// ordered key types, VerifOrder for keys implementing Orderer; keys that cannot
+// be ordered keep Go's native order and the harness must then be
+// order-insensitive). Under an active scheduler the explorer may reverse the
+// order at the cost of one deviation, so both extreme iteration orders of every
+// instrumented map range are explored. vinstr rewrites `for k, v := range m`
+// into a loop over MapKeys(m) that re-looks each key up (entries deleted during
+// the iteration are skipped, as the language guarantees).
+func MapKeys[K comparable, V any](m map[K]V) []K {
+	keys := make([]K, 0, len(m))
+	for k := range m {
+		keys = append(keys, k)
+	}
+	if len(keys) < 2 {
+		return keys
+	}
+	sortable := true
+	sort.SliceStable(keys, func(i, j int) bool {
+		c, ok := cmpAny(any(keys[i]), any(keys[j]))
+		if !ok {
+			sortable = false
+		}
+		return c < 0
+	})
+	if sortable && Choose(2) == 1 {
+		for i, j := 0, len(keys)-1; i < j; i, j = i+1, j-1 {
+			keys[i], keys[j] = keys[j], keys[i]
+		}
+	}
+	return keys
+}
